@@ -178,6 +178,11 @@ func (h *Sources) Walk(pos int) {
 		return
 	}
 
+	// Nor further down than the line being typed.
+	if h.hpos == -1 && pos <= 0 {
+		return
+	}
+
 	// Save the current line buffer if we are leaving it.
 	if h.hpos == -1 && pos > 0 {
 		h.skip = false
@@ -189,10 +194,9 @@ func (h *Sources) Walk(pos int) {
 	h.hpos += pos
 
 	switch {
-	case h.hpos < -1:
-		h.hpos = -1
-		return
-	case h.hpos == 0:
+	case h.hpos <= 0:
+		// Back on the line being typed (however far down we were
+		// asked to go): it must be restored, not just its position.
 		h.restoreLineBuffer()
 		return
 	case h.hpos > history.Len():
